@@ -1388,6 +1388,9 @@ func c9CheckBase(b *c9Base) error {
 	if ncommit < 2 || !multi {
 		return fmt.Errorf("%s: need >=2 transactions, one of them multi-frame (have %d, multi=%v)", b.Name, ncommit, multi)
 	}
+	if img, _, err := refwal.Apply(b.DB, b.WAL); err != nil || bytes.Equal(img, b.DB) {
+		return fmt.Errorf("%s: the WAL does not change the base db image (the SQLite cross-check would be vacuous)", b.Name)
+	}
 	n := b.slots()
 	switch b.Scenario {
 	case "shrink":
